@@ -188,14 +188,14 @@ class World:
                     count += 1
             open_dims[i] = dims
         self.par, self.bond, self.open_dims = par, bond, open_dims
-        self.ttn, canon, attach, names = gen.build_network(ptn.TreeTensorNetwork, par, bond, open_dims, rng,
-                                                           self.nprng, shuffle_legs=True)
-        self.names = names
-        # labels of open legs and the reference tensor (contracted from the canonical tensors only)
+        self.num: Dict[str, int] = {}      # identifier (alias) -> number used in the model protocol
         lab: Dict[Tuple[int, int], int] = {}
         for i in range(n):
             for k in range(len(open_dims[i])):
                 lab[(i, k)] = len(lab)
+        self.ttn, canon, attach, names, self.build_toks = self._build(par, bond, open_dims, lab)
+        self.names = names
+        # labels of open legs and the reference tensor (contracted from the canonical tensors only)
         self.label_dim = {lab[(i, k)]: open_dims[i][k] for (i, k) in lab}
         items = []
         for i in range(n):
@@ -217,6 +217,70 @@ class World:
         self.real: Dict[str, str] = {}      # alias -> actual identifier (uuid-named nodes only)
         self.fresh = 0
         self.nuuid = 0
+
+    def nid(self, name: str) -> int:
+        if name not in self.num:
+            self.num[name] = len(self.num) + 1
+        return self.num[name]
+
+    def _build(self, par, bond, open_dims, lab):
+        """Same construction as gen.build_network (public add_root / add_child_to_parent with shuffled raw
+        legs), but recording the protocol tokens for the model (axes = label.dim of the raw tensor)."""
+        import pytreenet as ptn
+        rng, nprng = self.rng, self.nprng
+        n = len(par)
+        names = {i: gen.node_name(i) for i in range(n)}
+        order = gen.insertion_order(rng, par)
+        attach: Dict[int, List[int]] = {i: [] for i in range(n)}
+        for x in order:
+            if par[x] >= 0:
+                attach[par[x]].append(x)
+        ttn = ptn.TreeTensorNetwork()
+        canon: Dict[int, np.ndarray] = {}
+        cur: Dict[int, List[Any]] = {}
+        nvirt: Dict[int, int] = {}
+        toks: List[str] = []
+        for x in order:
+            legs: List[Any] = ([("p",)] if par[x] >= 0 else []) + [("c", c) for c in attach[x]] + \
+                [("o", k) for k in range(len(open_dims[x]))]
+
+            def dim_of(l):
+                return bond[(par[x], x)] if l[0] == "p" else (bond[(x, l[1])] if l[0] == "c" else open_dims[x][l[1]])
+
+            def lab_of(l):
+                return 1000 + x if l[0] == "p" else (1000 + l[1] if l[0] == "c" else lab[(x, l[1])])
+            dims = [dim_of(l) for l in legs]
+            t = gen.rand_tensor(nprng, dims, True, False) if dims else np.array(complex(nprng.standard_normal(),
+                                                                                    nprng.standard_normal()))
+            canon[x] = t
+            virt = [l for l in legs if l[0] != "o"]
+            opens = [l for l in legs if l[0] == "o"]
+            rng.shuffle(virt)
+            slots = ["v"] * len(virt) + ["o"] * len(opens)
+            rng.shuffle(slots)
+            vi, oi = iter(virt), iter(opens)
+            raw_order = [next(vi) if sl == "v" else next(oi) for sl in slots]
+            raw_t = np.transpose(t, [legs.index(l) for l in raw_order]) if legs else t
+            axes = ",".join(f"{lab_of(l)}.{dim_of(l)}" for l in raw_order) if raw_order else "-"
+            node = ptn.Node(identifier=names[x])
+            cur[x] = list(raw_order)
+            nvirt[x] = 0
+            if par[x] < 0:
+                ttn.add_root(node, raw_t)
+                toks.append(f"root:{self.nid(names[x])}:{axes}")
+            else:
+                p = par[x]
+                child_leg = cur[x].index(("p",))
+                parent_leg = cur[p].index(("c", x))
+                ttn.add_child_to_parent(node, raw_t, child_leg, names[p], parent_leg)
+                toks.append(f"child:{self.nid(names[x])}:{axes}:{child_leg}:{self.nid(names[p])}:{parent_leg}")
+                cur[p].remove(("c", x))
+                cur[p].insert(nvirt[p], ("c", x))
+                nvirt[p] += 1
+                cur[x].remove(("p",))
+                cur[x].insert(0, ("p",))
+                nvirt[x] = 1
+        return ttn, canon, attach, names, toks
 
     # ---- name translation (uuid identifiers get the stable alias @u<k>)
     def rid(self, name: Optional[str]) -> Optional[str]:
@@ -656,7 +720,11 @@ def run_history(ctx, case: Dict[str, Any], model_states: Optional[List[str]] = N
     given = case.get("ops")
     nops = len(given) if given is not None else case["nops"]
     done: List[Dict[str, Any]] = []
-    info = {"kinds": set(), "lazy": False, "reuse": False, "trace": []}
+    info = {"kinds": set(), "lazy": False, "reuse": False, "trace": [], "toks": [], "lines": [], "opidx": []}
+    for t in w.build_toks:
+        info["toks"].append(t)
+        info["lines"].append(None)
+        info["opidx"].append(None)
 
     def report(detail: str, finding=None):
         c = dict(case)
@@ -668,7 +736,7 @@ def run_history(ctx, case: Dict[str, Any], model_states: Optional[List[str]] = N
         pr = check_state(w)
         if pr:
             report("initial network: " + pr[0])
-        info["trace"].append(state_line(w))
+        info["lines"][-1] = state_line(w)
         step = 0
         attempts = 0
         while step < nops and attempts < 6 * nops + 20:
@@ -684,9 +752,8 @@ def run_history(ctx, case: Dict[str, Any], model_states: Optional[List[str]] = N
                     continue
                 step += 1
             done.append(op)
+            info["cur"] = len(done) - 1
             apply_op(ctx, w, op, info, report)
-            if op["op"] != "bad":
-                info["trace"].append(state_line(w))
     except Stop:
         return done, info, w
     return done, info, w
@@ -697,7 +764,12 @@ def apply_op(ctx, w: World, op: Dict[str, Any], info, report):
     ttn, exp = w.ttn, w.exp
     info["kinds"].add(kind if kind != "split" else "split_" + op["how"])
     ctx.tally("ops", kind if kind not in ("split", "bad") else (kind + ":" + (op["how"] if kind == "split" else op["what"])))
-    tag = f"op#{len(info['trace'])} {describe(op)}: "
+    tag = f"op#{info.get('cur', 0)} {describe(op)}: "
+
+    def emit(tok: str, line: Optional[str]):
+        info["toks"].append(tok)
+        info["lines"].append(line)
+        info["opidx"].append(info.get("cur"))
 
     def call(f, what):
         try:
@@ -725,13 +797,16 @@ def apply_op(ctx, w: World, op: Dict[str, Any], info, report):
         if node is not ttn.nodes[x] or tuple(t.shape) != tuple(node.shape):
             report(tag + f"access returns tensor of shape {t.shape} for a node of shape {node.shape}")
         verify()
+        emit(f"acc:{w.nid(w.alias(x))}", state_line(w))
     elif kind == "rename":
         new_real = w.rid(op["new"]) if op["new"] == op["old"] else op["new"]
+        tok = f"rename:{w.nid(op['new'])}:{w.nid(op['old'])}"
         call(lambda: ttn.change_node_identifier(new_real, w.rid(op["old"])), "change_node_identifier")
         if op["old"] in w.real and op["old"] != op["new"]:
             del w.real[op["old"]]
         exp_rename(exp, op["old"], op["new"])
         verify()
+        emit(tok, state_line(w))
     elif kind == "replace_tensor":
         x = w.rid(op["id"])
         snap = copy.deepcopy(ttn)
@@ -745,12 +820,14 @@ def apply_op(ctx, w: World, op: Dict[str, Any], info, report):
             new_t = np.ascontiguousarray(np.transpose(t, np.argsort(p))) if p else np.array(t, copy=True)
             call(lambda: ttn.replace_tensor(x, new_t, tuple(p) if op["tuple"] else list(p)), "replace_tensor")
         verify()
+        emit(f"rtp:{w.nid(op['id'])}:{'none' if op['perm'] is None else fmt_list(op['perm'])}", state_line(w))
     elif kind == "contract":
         if lazy_pending(w, [op["a"], op["b"]]):
             info["lazy"] = True
         if op["mode"] in ("a", "b"):
             info["reuse"] = True
         a, b = w.rid(op["a"]), w.rid(op["b"])
+        tok = f"contract:{w.nid(op['a'])}:{w.nid(op['b'])}:{w.nid(op['new'])}"
         if op["mode"] == "default":
             call(lambda: ttn.contract_nodes(a, b), "contract_nodes")
             newid = a + "contr" + b
@@ -765,6 +842,7 @@ def apply_op(ctx, w: World, op: Dict[str, Any], info, report):
                 del w.real[nm]
         exp_contract(exp, op["a"], op["b"], new)
         verify(ordered=[new])
+        emit(tok, state_line(w))
     elif kind == "split":
         if lazy_pending(w, [op["id"]]):
             info["lazy"] = True
@@ -772,6 +850,7 @@ def apply_op(ctx, w: World, op: Dict[str, Any], info, report):
             info["reuse"] = True
         x = op["id"]
         xr = w.rid(x)
+        tok = split_token(w, op)
         call(lambda: do_split(w, op), f"split_node_{op['how']}")
         for mode, ident, prefix in ((op["out_mode"], op["out_id"], "out_of_"), (op["in_mode"], op["in_id"], "in_of_")):
             if mode == "default" and prefix + xr != ident:
@@ -782,6 +861,7 @@ def apply_op(ctx, w: World, op: Dict[str, Any], info, report):
             del w.real[x]
         exp_split(exp, op)
         verify()
+        emit(tok, state_line(w))
         if op["how"] in ("qr", "svd"):
             ctx.hyp_validated += 1
     elif kind == "insert_identity":
@@ -801,6 +881,7 @@ def apply_op(ctx, w: World, op: Dict[str, Any], info, report):
         op = dict(op, alias=new)
         exp_insert_identity(exp, op["child"], op["parent"], new)
         verify()
+        emit(f"ident:{w.nid(op['child'])}:{w.nid(op['parent'])}:{w.nid(new)}", state_line(w))
     elif kind == "csb":
         # legs_before_combination -> contract_nodes -> split back with the recorded specifications
         if lazy_pending(w, [op["a"], op["b"]]):
@@ -809,6 +890,12 @@ def apply_op(ctx, w: World, op: Dict[str, Any], info, report):
         before = exp.clone()
         spec_a, spec_b = call(lambda: ttn.legs_before_combination(a, b), "legs_before_combination")
         verify(after="after legs_before_combination: ")
+
+        def spec_of(sp, rename=None):
+            return spec_str(w, None if sp.parent_leg is None else w.alias(sp.parent_leg),
+                            [w.alias(c) for c in sp.child_legs], list(sp.open_legs), bool(sp.is_root), rename)
+        emit(f"lbc:{w.nid(op['a'])}:{w.nid(op['b'])}", spec_of(spec_a) + "&" + spec_of(spec_b))
+        ctok = f"contract:{w.nid(op['a'])}:{w.nid(op['b'])}:{w.nid(op['new'])}"
         if op["mode"] == "default":
             call(lambda: ttn.contract_nodes(a, b), "contract_nodes")
             newid = a + "contr" + b
@@ -821,11 +908,22 @@ def apply_op(ctx, w: World, op: Dict[str, Any], info, report):
         w.real[tmp] = newid
         exp_contract(exp, op["a"], op["b"], tmp)
         verify(ordered=[tmp], after="after contract_nodes: ")
-        info["trace"].append(state_line(w, rename={tmp: op["new"]}))
+        emit(ctok, state_line(w, rename={tmp: op["new"]}))
         if op["swap"]:
-            o_spec, i_spec, o_id, i_id = spec_b, spec_a, b, a
+            o_spec, i_spec, o_id, i_id, o_nm, i_nm = spec_b, spec_a, b, a, op["b"], op["a"]
         else:
-            o_spec, i_spec, o_id, i_id = spec_a, spec_b, a, b
+            o_spec, i_spec, o_id, i_id, o_nm, i_nm = spec_a, spec_b, a, b, op["a"], op["b"]
+        # bond dimension by the rule min(rows, cols), from the recorded shape of the contracted node
+        cnode = ttn.nodes[newid]
+        cshape = list(cnode.shape)
+
+        def side_dim(sp):
+            legs = ([0] if sp.parent_leg is not None else []) + [cnode.neighbour_index(c) for c in sp.child_legs] + \
+                list(sp.open_legs)
+            return int(np.prod([cshape[l] for l in legs], dtype=int))
+        bond = min(side_dim(o_spec), side_dim(i_spec))
+        stok = (f"split:{w.nid(op['new'])}:{spec_of(o_spec, {tmp: op['new']})}:{spec_of(i_spec, {tmp: op['new']})}:"
+                f"{w.nid(o_nm)}:{w.nid(i_nm)}:{bond}")
         if op["how"] == "qr":
             call(lambda: ttn.split_node_qr(newid, o_spec, i_spec, q_identifier=o_id, r_identifier=i_id),
                  "split_node_qr")
@@ -836,11 +934,34 @@ def apply_op(ctx, w: World, op: Dict[str, Any], info, report):
         w.exp = before           # documented: "to split the two nodes again, to have the same legs as before"
         exp = w.exp
         verify(after="after splitting back with legs_before_combination: ")
+        emit(stok, state_line(w))
         ctx.hyp_validated += 1
     elif kind == "bad":
+        tok = bad_token(w, op)
         run_bad(ctx, w, op, report, tag)
+        if tok is not None:
+            emit(tok, "err")
     else:
         raise common.HarnessError(f"unknown op {kind}")
+
+
+def bad_token(w: World, op: Dict[str, Any]) -> Optional[str]:
+    what = op["what"]
+    if what == "contract_nn":
+        return f"contract:{w.nid(op['a'])}:{w.nid(op['b'])}:999999"
+    if what.startswith("split_"):
+        return split_token(w, op)
+    if what == "rename_dup":
+        return f"rename:{w.nid(op['new'])}:{w.nid(op['old'])}"
+    if what == "identity_nonedge":
+        return f"ident:{w.nid(op['child'])}:{w.nid(op['parent'])}:999998"
+    if what in ("add_child_dup", "add_child_dim"):
+        x = w.rid(op["parent"])
+        d = w.ttn.nodes[x].shape[op["leg"]]
+        if what == "add_child_dup":
+            return f"child:{w.nid(op['dup'])}:7.{d},8.2:0:{w.nid(op['parent'])}:{op['leg']}"
+        return f"child:999997:7.{d + 1},8.2:0:{w.nid(op['parent'])}:{op['leg']}"
+    return None
 
 
 def run_bad(ctx, w: World, op: Dict[str, Any], report, tag: str):
@@ -1057,6 +1178,7 @@ def run_nodeseq_impl(case: Dict[str, Any]) -> Tuple[List[str], List[str], List[s
     nl0 = rng.randint(0, 7)
     first = "link:" + fmt_list(rng.sample(range(2, 10), nl0))
     n = len(given) if given is not None else case["nops"]
+    trusted = True
     for i in range(n):
         tok = given[i] if given is not None else (first if i == 0 else gen_node_tok(rng, node, used))
         saved = copy.deepcopy(node)
@@ -1070,7 +1192,9 @@ def run_nodeseq_impl(case: Dict[str, Any]) -> Tuple[List[str], List[str], List[s
             lines.append("err")
         toks.append(tok)
         # property clause at the Node level: the permutation stays a permutation, nvirt <= nlegs, shape coherent
-        if lines[-1] != "err" and node_tok_valid(tok):
+        if lines[-1] != "err" and not node_tok_valid(tok) and i > 0:
+            trusted = False         # an inadmissible call went through: the invariant is no longer promised
+        if lines[-1] != "err" and trusted and i > 0:
             perm = list(node.leg_permutation)
             if sorted(perm) != list(range(len(perm))):
                 probs.append(f"after {tok}: leg permutation {perm} is not a permutation")
@@ -1118,8 +1242,76 @@ def compare_nodeseq(ctx, case, toks, lines, probs, model_out: str):
 # ===================================================================== model correspondence (filled in by stage 2/3)
 
 def state_line(w: World, rename: Optional[Dict[str, str]] = None) -> str:
-    """Canonical text of structure + open-label order + shapes; compared with the Lean model's line."""
-    return ""
+    """Canonical text of the implementation's structure (root, parents, exact child order, recorded shapes)
+    with the open-leg labels of the (oracle-validated) expected state; compared with the model's line."""
+    ttn, exp = w.ttn, w.exp
+    rename = rename or {}
+
+    def num(ident):
+        nm = w.alias(ident)
+        return w.nid(rename.get(nm, nm))
+    rows = []
+    for i, n in ttn.nodes.items():
+        nm = w.alias(i)
+        par = "-" if n.parent is None else str(num(n.parent))
+        opens = exp.nodes[nm]["open"] if nm in exp.nodes else ["?"]
+        rows.append((num(i), f"{num(i)}:{par}:{fmt_list([num(c) for c in n.children])}:"
+                             f"{fmt_list(opens)}:{fmt_list(n.shape)}"))
+    rows.sort()
+    tk = sorted(num(i) for i in ttn.tensors.keys())
+    root = "-" if ttn.root_id is None else str(num(ttn.root_id))
+    return ";".join([f"root={root}", f"T={fmt_list(tk)}"] + [r for _, r in rows])
+
+
+def spec_str(w: World, parent, children, opens, is_root, rename=None) -> str:
+    rename = rename or {}
+
+    def num(nm):
+        return w.nid(rename.get(nm, nm))
+    return (f"{'-' if parent is None else num(parent)}/{fmt_list([num(c) for c in children])}/"
+            f"{fmt_list(opens)}/{'r' if is_root else 'n'}")
+
+
+def split_token(w: World, op: Dict[str, Any]) -> str:
+    """Protocol token of a split op (computed before the call): specs as passed to the library, new bond
+    dimension by the rule of the splitting function (reduced QR / untruncated SVD: min(rows, cols))."""
+    exp = w.exp
+    x = op["id"]
+    known = x in exp.nodes
+    par = exp.nodes[x]["parent"] if known else None
+    out_par = par if (par is not None and op["keep"] == "out") else None
+    in_par = par if (par is not None and op["keep"] == "in") else None
+    o = spec_str(w, out_par, op["out_ch"], op["out_open"], par is None and op["keep"] == "out")
+    i = spec_str(w, in_par, op["in_ch"], op["in_open"], par is None and op["keep"] == "in")
+    bond = 1
+    if op["op"] == "split":
+        shape = list(w.ttn.nodes[w.rid(x)].shape)
+        ch = exp.nodes[x]["children"]
+        off = 0 if par is None else 1
+        rows = int(np.prod([shape[0]] if out_par is not None else [], dtype=int)) * \
+            int(np.prod([shape[off + ch.index(c)] for c in op["out_ch"]] + [shape[l] for l in op["out_open"]], dtype=int))
+        cols = int(np.prod([shape[0]] if in_par is not None else [], dtype=int)) * \
+            int(np.prod([shape[off + ch.index(c)] for c in op["in_ch"]] + [shape[l] for l in op["in_open"]], dtype=int))
+        how = op["how"]
+        if how == "replace":
+            bond = {"ia": rows, "ib": cols, "qr": min(rows, cols)}[op["repl"]]
+        else:
+            bond = min(rows, cols)
+    return f"split:{w.nid(x)}:{o}:{i}:{w.nid(op['out_id'])}:{w.nid(op['in_id'])}:{bond}"
+
+
+def compare_hist(ctx, case, done, info, model_out: str):
+    toks, lines = info["toks"], info["lines"]
+    mlines = model_out.split("|")
+    if model_out == "bad-op" or len(mlines) != len(lines):
+        ctx.corr_fail(dict(case, ops=done), f"hist: model answered {model_out[:80]!r} for {len(lines)} ops")
+        return
+    for i, (a, b) in enumerate(zip(lines, mlines)):
+        if a is not None and a != b:
+            k = info["opidx"][i]
+            ctx.corr_fail(dict(case, ops=done[:k + 1] if k is not None else []),
+                          f"hist token#{i} {toks[i]}: implementation {a} | model {b}")
+            return
 
 
 def run_case(ctx, case, model_out=None):
@@ -1127,7 +1319,14 @@ def run_case(ctx, case, model_out=None):
     if kind == "hist":
         done, info, w = run_history(ctx, case)
         nontrivial = len(info["kinds"]) >= 3 and (info["lazy"] or info["reuse"])
-        ctx.count(("hist", case["seed"], case["n"], len(done)), nontrivial=nontrivial, corr=False)
+        ctx.count(("hist", case["seed"], case["n"], len(done)), nontrivial=nontrivial, corr=True)
+        if model_out is None:
+            model_out = ctx.lean.batch(["C02 hist " + " ".join(info["toks"])])[0]
+        elif callable(model_out):
+            model_out(case, done, info)
+            model_out = None
+        if model_out is not None:
+            compare_hist(ctx, case, done, info, model_out)
         ctx.tally("tree_size", case["n"])
         ctx.tally("history_len", 10 * (len(done) // 10))
         ctx.tally("final_nodes", len(w.exp.nodes))
@@ -1178,11 +1377,17 @@ def run(ctx):
     outs = ctx.lean.batch(["C02 nodeseq " + " ".join(t) for _, t, _, _ in pending])
     for (case, toks, lines, probs), out in zip(pending, outs):
         compare_nodeseq(ctx, case, toks, lines, probs, out)
+    pend = []
     for case in cases:
         if ctx.time_left() < 0:
             break
         if case.get("kind", "hist") == "hist":
-            run_case(ctx, case)
+            run_case(ctx, case, model_out=lambda c, d, i: pend.append((c, d, i)))
+    for k in range(0, len(pend), 200):
+        chunk = pend[k:k + 200]
+        outs = ctx.lean.batch(["C02 hist " + " ".join(i["toks"]) for _, _, i in chunk])
+        for (c, d, i), out in zip(chunk, outs):
+            compare_hist(ctx, c, d, i, out)
 
 
 def shrink(case):
